@@ -57,6 +57,7 @@ func checkSurface(c surfCase) *ev.Failure {
 		return &ev.Failure{Sig: sig, Msg: msg, Expected: exp, Observed: obs}
 	}
 	lastOK := ""
+	diverged := false
 	for si, st := range c.Steps {
 		text := strings.Join(st.Forms, "\n") + "\n"
 		ra := evalString(a.env, text, 200000)
@@ -80,6 +81,27 @@ func checkSurface(c surfCase) *ev.Failure {
 		if rb.Budget {
 			return nil
 		}
+		if diverged {
+			// after a failed step the two interpreters may hold different state (a text that does
+			// not compile runs nothing, its forms one at a time run up to the bad one): only the
+			// per-interpreter invariants are checked from here on
+			a.trace, b.trace = nil, nil
+			if ra.Err != nil {
+				a.env.Clear()
+			}
+			if rb.Err != nil {
+				b.env.Clear()
+			}
+			for name, in := range map[string]*surfInterp{"together": a, "separately": b} {
+				if (name == "together" && ra.Err != nil) || (name == "separately" && rb.Err != nil) {
+					continue
+				}
+				if bad := atRest(in.env); bad != "" {
+					return mk("leftover:"+formKinds(st.Forms), fmt.Sprintf("after successful step %d (%s) the interpreter is not at rest: %s\nstep: %s", si, name, bad, text), "at rest", bad)
+				}
+			}
+			continue
+		}
 		if (ra.Err != nil) != (rb.Err != nil) {
 			return mk("together-vs-separately:"+formKinds(st.Forms), fmt.Sprintf("step %d: evaluating the forms together and one at a time disagree on success: %s", si, text), fmt.Sprint("separately: ", rb.Err), fmt.Sprint("together: ", ra.Err))
 		}
@@ -88,6 +110,7 @@ func checkSurface(c surfCase) *ev.Failure {
 			a.env.Clear()
 			b.env.Clear()
 			a.trace, b.trace = nil, nil
+			diverged = true
 			continue
 		}
 		if da, db := dump(ra.Val), dump(rb.Val); da != db && !strings.Contains(da, "0x") && !strings.Contains(da, "Stack") {
